@@ -151,6 +151,34 @@ CLAIMS = {
         note="Equality with list assignment as values (range/slice arithmetic, typeutils.slice_length) is numeric and not decided.",
         technique="CFG reachability between mutation events and may-raise events + effect summaries + finite abstract interpretation",
         design="2/C08"),
+    "C06": dict(
+        text="None handling is decided per kernel and per reduction from dataflow facts: all arithmetic kernels (3 comprehensions, "
+             "3 reflected-add loops, 2 date-add, unary) map a None operand to None and all 8 comparison kernels to False; for the "
+             "7 Vector reductions and the 12 group aggregators a fact tuple (filter, reducer, empty result, minimum count, divisor) "
+             "is extracted with locals inlined and comprehension variables alpha-renamed and compared with the textbook spec and "
+             "across the siblings aggregate / window / Vector; isna, dropna, fillna use the one predicate `x is None`.",
+        note="Numeric agreement of the builtin reducers with the None-free list is delegated, not decided.",
+        technique="normal-form fact extraction (inlining + alpha-renaming) + spec table + sibling comparison",
+        design="2/C06"),
+    "C12": dict(
+        text="aggregate's structure is extracted by dataflow roles and decided: partition loop over range(len(self)) with keys = "
+             "the row's values of all key columns (None not special-cased), first-sight [row] / append(row) buckets, groups = "
+             "insertion-ordered items never sorted or passed through a set; key columns first; per built-in aggregate the wiring "
+             "parameter <-> loop <-> function facts <-> suffix and facts == textbook spec; every aggregate function (and apply, "
+             "None included) is called once per group on the values gathered in row order; Vector reductions are fact-equal; "
+             "length guards, exact-name resolution of columns given by name, determinism, purity.",
+        note="Numeric results and equality/hash behaviour of exotic keys are run-time properties and not decided.",
+        technique="dataflow role extraction + aggregator fact tuples vs spec + sibling comparison",
+        design="2/C12"),
+    "C13": dict(
+        text="window = aggregate expanded back to rows is decided structurally: window partitions exactly like aggregate and "
+             "records row i's key in the same iteration; compute_group_values maps each group key to fn(values in row order), "
+             "fresh per call; expand_to_rows returns group_map[row_keys[i]] for i in range(nrows); every output column is the "
+             "expansion of its own column's group values; key columns are list(col), first; the six aggregators, the output "
+             "naming and uniquify are fact-/alpha-equal to aggregate's; apply, guards, purity.",
+        note="Value equality with an actual aggregate + join-back is not decided.",
+        technique="dataflow role extraction + sibling (aggregate vs window) fact and alpha-canonical comparison",
+        design="2/C13"),
 }
 
 PENDING = "static rules for this property are designed (DESIGN.md section 2) but not yet built in this round; not claimed yet"
